@@ -122,6 +122,26 @@ func checkOne(t schema.Type, spec yangval.Spec, v string) []engine.Violation {
 	mk := func(key, detail string) []engine.Violation {
 		return []engine.Violation{{Key: key, Witness: fmt.Sprintf("%s value %q", spec.Yang(), v), Detail: detail, Harness: "val", Replay: engine.JSON(rec{Spec: spec, Value: strconv.Quote(v)})}}
 	}
+	if u, isUnion := t.(schema.Union); isUnion && p == nil {
+		// the union's other entry point: MatchType names the member that accepts the value - some
+		// non-union member type iff Validate accepts, and that member accepts the value itself
+		var mt schema.Type
+		var pm any
+		func() {
+			defer func() { pm = recover() }()
+			mt = u.MatchType(valCtx{}, path, v)
+		}()
+		switch {
+		case pm != nil:
+			return mk("panic:union-match-type", fmt.Sprint(pm))
+		case (mt != nil) != (err == nil):
+			return mk("union-match-type-disagrees-with-validate", fmt.Sprintf("Validate: %v; MatchType: %v", err, mt))
+		case mt != nil:
+			if _, nested := mt.(schema.Union); nested || mt.Validate(valCtx{}, path, v) != nil {
+				return mk("union-match-type-names-a-member-that-does-not-accept", fmt.Sprintf("MatchType: %T %v", mt, mt))
+			}
+		}
+	}
 	switch {
 	case p != nil:
 		return mk("panic:"+kindKey(spec), fmt.Sprint(p))
